@@ -1284,7 +1284,10 @@ class Interp:
                     and isinstance(args[2], int) and 0 < args[2] <= (1 << 20):
                 lo, hi = args[0].off, args[0].off + args[2]
                 for k_ in [k_ for k_ in self.heap if k_[0] == args[0].base and isinstance(k_[1], int) and lo <= k_[1] < hi]:
-                    del self.heap[k_]
+                    if args[1] == 0:
+                        self.heap[k_] = 0       # a member the caller tracks stays visible in the final heap, now cleared
+                    else:
+                        del self.heap[k_]
                 if args[1] == 0:
                     self.zeroed.append((args[0].base, lo, hi))
                 else:
